@@ -8,12 +8,32 @@ end the task result (data_flow.get_task_execution_result, `task(t1).result` publ
 downstream) is compared with the model's `resultList`.
 
 Independently of the model the C07 *statement* is evaluated on the same traces (monitors M1..M8).
+
+SUB-WORKFLOW ITEMS (case['item_kind'] == 'workflow'): `t1: workflow: sub x=<% $.i %>`.  The executions of t1 are
+then its child WORKFLOW executions (index, state, accepted) in creation order; IDLE/RUNNING/PAUSED count as RUNNING.
+How the model operations are recognised for them:
+  start / rerun / continue / handled : as for actions (start_task of t1, `_continue_task` of t1, the
+      `_scheduled_on_action_complete` job - only with-items tasks get such a job, so it is always t1's);
+  result pos outcome : the committed transaction in which the pos-th child goes from non-final to final
+      (`Workflow.set_state`: state + accepted in ONE transaction - the child's own last task completion, or
+      `stop_workflow(child, CANCELLED)`), recognised on the snapshots before/after the delivery.  The model's third
+      effect (one more pending completion) is real as a MESSAGE: the same transaction registers `_send_result`
+      (post-commit) -> rpc on_action_complete(child id, wf_action=True) -> `WorkflowAction.complete` is a no-op and
+      `schedule_on_action_complete` creates the job.  `unhandled` of the real side is therefore
+      #jobs + #completion messages of children still in flight; the two forwarding deliveries are NOT model operations;
+  everything inside a child (start_task of s0/s1, run_action, on_action_complete of s1's action) is not an operation.
+A CANCELLED item = a child that ends CANCELLED: its action returned a cancel result, or it was stopped with
+`stop_workflow(child, 'CANCELLED')` (case['stop_child']).
+INNER RERUN (case['inner']): `rerun_workflow(<failed task s1 of a child>)`; `_recursive_rerun` puts the child, the
+parent workflow and t1 back to RUNNING.  The Lean model has no such operation: from that event on the model comparison
+is switched off (counted `inner-rerun:model-comparison-stops`), all statement monitors keep running.
 """
 import itertools
 import json
 import random
 
 TASK = 't1'
+SUB_LAST = 's1'          # the task of the child workflow whose action the outcome table drives (always its last task)
 FINAL = ('SUCCESS', 'ERROR', 'CANCELLED')
 K1 = {'kind': 'rerun-no-reset-reexecutes-succeeded-items'}
 K2 = {'kind': 'rerun-or-retry-round-starts-index-twice'}
@@ -22,20 +42,27 @@ K3 = {'kind': 'cancelled-item-completes-task-before-all-items'}
 KL = {'kind': 'task-completed-before-all-items', 'state': 'ERROR', 'cause': 'input-evaluation-failed-in-later-round'}
 # ... and a rerun of that task starts `concurrency` new children next to the still RUNNING ones
 KR = {'kind': 'running-exceeds-concurrency', 'cause': 'rerun-after-late-input-failure'}
+# sub-workflow items: a failed child re-run from the inside goes back to RUNNING without taking a unit of capacity
+KI = {'kind': 'running-exceeds-concurrency', 'cause': 'inner-rerun-of-failed-sub-workflow'}
+# ... and it completes a second time: one completion job more than executions.  Under a limit the task then reaches
+# "full capacity" one job early; with a retry policy the surplus job is handled while the task is DELAYED (not completed)
+# and schedules the items of the retry round itself, before (and next to) the `_continue_task` of the policy
+KJ = {'kind': 'items-started-while-task-delayed', 'cause': 'inner-rerun-of-failed-sub-workflow'}
 
 # ----------------------------------------------------------------------------- evaluation failures
 # case['eval'] (optional; old corpus files do not have it) describes how the with-items expression, the
 # per-item action input and `concurrency` evaluate on the real engine:
 #   'items'   : form of the with-items expression / its value (ITEMS_OK: evaluates to iterables of one length,
 #               ITEMS_BAD: InputException / expression error in _get_with_items_values)
-#   'input'   : form of the action input whose evaluation fails for the item indexes in 'bad'
+#   'input'   : form of the action input whose evaluation (or, 'invalid-param', validation by the action) fails for
+#               the item indexes in 'bad'
 #   'bad'     : item indexes whose action input fails to evaluate
 #   'conc_bad': value `concurrency: <% $.c %>` evaluates to (ill-typed: refused by ConcurrencyPolicy)
 #   'conc_div': `concurrency: <% 1 / $.c %>` with c = 0 (the expression itself fails)
 #   'ys_len'  : length of the second list for items = 'two-unequal'
 ITEMS_OK = ('list', 'dict', 'string', 'nested', 'two-equal')
 ITEMS_BAD = ('two-unequal', 'second-not-iterable', 'number', 'null', 'bool', 'expr-nofunc', 'expr-div')
-INPUT_FORMS = ('div-inline', 'div-dict', 'div-nested', 'cond-func', 'cond-var', 'dynamic', 'jinja')
+INPUT_FORMS = ('div-inline', 'div-dict', 'div-nested', 'cond-func', 'cond-var', 'dynamic', 'jinja', 'invalid-param')
 CONC_BAD_VALUES = ['abc', -1, 1.5, None, [1], True, '2']
 DYN_BAD_VALUES = [7, [1], None, 'str']
 
@@ -90,7 +117,9 @@ def render_yaml(case):
         lines += ['      with-items: i in <% $.xs.take(1 / 0) %>']
     else:
         lines += ['      with-items: i in <% $.xs %>']
-    if inp in ('div-inline',):
+    if is_wf(case):
+        lines += ['      workflow: sub x=<% $.i %>']
+    elif inp in ('div-inline',):
         lines += ['      action: std.echo output=<% 100 / $.i %>']
     elif inp == 'div-dict':
         lines += ['      action: std.echo', '      input:', '        output: <% 100 / $.i %>']
@@ -100,7 +129,10 @@ def render_yaml(case):
         lines += ['      action: std.echo output=<% switch($.i < 0 => no_such_function($.i), true => $.i) %>']
     elif inp == 'cond-var':
         lines += ['      action: std.echo output=<% switch($.i < 0 => $.nothing.foo, true => $.i) %>']
-    elif inp == 'dynamic':
+    elif inp in ('dynamic', 'invalid-param'):
+        # 'invalid-param': the input evaluates (a dict) but the action refuses it (check_parameters: "Invalid input
+        # ... missing=['output'], unexpected=['nope']"); since repo patch 30 validated with the evaluation, before any
+        # execution of the round / portion is created
         lines += ['      action: std.echo', '      input: <% $.i %>']
     elif inp == 'jinja':
         lines += ['      action: std.echo output="{{ 100 // _.i }}"']
@@ -121,7 +153,17 @@ def render_yaml(case):
     if case.get('downstream'):
         lines += ['      on-success:', '        - t2',
                   '    t2:', '      action: std.echo output=<% task(t1).result %>']
+    if is_wf(case):
+        # the child workflow: [s0 ->] s1; the outcome table drives the action of s1 (key t1:<item index>:<k-th run>)
+        lines += ['sub:', '  input:', '    - x', '  output:', '    res: <% task(s1).result %>', '  tasks:']
+        if case.get('sub_tasks', 1) >= 2:
+            lines += ['    s0:', '      action: std.noop', '      on-success:', '        - s1']
+        lines += ['    s1:', '      action: std.echo output=<% $.x %>']
     return '\n'.join(lines) + '\n'
+
+
+def is_wf(case):
+    return case.get('item_kind') == 'workflow'
 
 
 def item_values(case):
@@ -133,6 +175,8 @@ def item_values(case):
         return [0 if i in bad else i + 1 for i in range(n)]
     if inp in ('cond-func', 'cond-var'):
         return [-(i + 1) if i in bad else 100 + i for i in range(n)]
+    if inp == 'invalid-param':
+        return [{'nope': 100 + i} if i in bad else {'output': 100 + i} for i in range(n)]
     if inp == 'dynamic':
         return [DYN_BAD_VALUES[i % len(DYN_BAD_VALUES)] if i in bad else {'output': 100 + i} for i in range(n)]
     return [100 + i for i in range(n)]
@@ -202,7 +246,8 @@ def gen_table(rng, n, attempts, p_err, p_cancel, scripted=True):
 
 
 def gen_case(rng):
-    n = rng.choice([0, 1, 2, 2, 3, 3, 4, 4, 5, 6, 7, 8])
+    wf = rng.random() < 0.28               # sub-workflow items (twice the events per item: n <= 4)
+    n = rng.choice([0, 1, 2, 2, 2, 3, 3, 4]) if wf else rng.choice([0, 1, 2, 2, 3, 3, 4, 4, 5, 6, 7, 8])
     form = rng.choice(['absent', 'literal', 'literal', 'literal', 'expr', 'expr', 'defaults'])
     conc = 0 if form == 'absent' else rng.randint(1, n + 1)
     if form == 'literal' and rng.random() < 0.05:
@@ -223,6 +268,8 @@ def gen_case(rng):
             'table': gen_table(rng, n, attempts, p_err, p_cancel),
             'policy': rng.choice(['random', 'random', 'random', 'fifo', 'lifo']),
             'reruns': reruns, 'seed': rng.getrandbits(32)}
+    if wf:
+        return gen_wf_part(rng, case)
     ev = gen_eval(rng, case)
     if ev:
         case['eval'] = ev
@@ -231,6 +278,33 @@ def gen_case(rng):
             for k in list(case['table']):
                 if case['table'][k][0] in ('error', 'cancel') and rng.random() < 0.7:
                     case['table'][k] = ['run']
+    return case
+
+
+def gen_wf_part(rng, case):
+    """sub-workflow items: `workflow: sub x=<% $.i %>`; optionally an INNER rerun of a failed child (n >= 2: while a
+    sibling is RUNNING / after the parent task completed) and a child stopped with CANCELLED from outside"""
+    n = case['n']
+    case['item_kind'] = 'workflow'
+    case['sub_tasks'] = rng.choice([1, 1, 1, 2])
+    case['action'] = 'echo'
+    if n >= 2 and rng.random() < 0.5:
+        case['inner'] = {'when': rng.choice(['sibling-running', 'sibling-running', 'after-parent']),
+                         'p': rng.choice([1.0, 0.5, 0.2])}
+        if rng.random() < 0.7:
+            case['reruns'] = []
+        # a child must fail for it: one index fails its first run (and mostly succeeds when run again)
+        j = rng.randrange(n)
+        case['table']['%s:%d:0' % (TASK, j)] = ['error', 'e%d.0' % j]
+        if rng.random() < 0.75:
+            case['table']['%s:%d:1' % (TASK, j)] = ['value', 'v%d.1' % j]
+        if rng.random() < 0.5:
+            # the siblings succeed: the run with the failed child re-run is the interesting one
+            for i in range(n):
+                if i != j and case['table'].get('%s:%d:0' % (TASK, i), ['run'])[0] in ('error', 'cancel'):
+                    case['table']['%s:%d:0' % (TASK, i)] = ['run']
+    if n >= 1 and rng.random() < 0.12:
+        case['stop_child'] = {'index': rng.randrange(n), 'after': rng.randint(1, 5 * n + 2)}
     return case
 
 
@@ -296,10 +370,21 @@ def t1_row(snap):
 
 
 def t1_actions(snap):
+    """the executions of t1 in creation order: its action executions, or - for a `workflow:` task - its child
+    workflow executions in the same shape (IDLE / RUNNING / PAUSED children are RUNNING items)"""
     t = t1_row(snap)
     if t is None:
         return []
+    if t.get('type') == 'WORKFLOW':
+        return [wf_item(x) for x in snap['wfs'] if x['parent_task'] == t['ord']]
     return [a for a in snap['actions'] if a['task'] == t['ord']]
+
+
+def wf_item(x):
+    st = x['state']
+    return {'ord': x['ord'], 'id': x['id'], 'index': x['index'], 'accepted': x['accepted'], 'output': x['output'],
+            'state': 'RUNNING' if st in ('IDLE', 'RUNNING', 'PAUSED') else st, 'raw_state': st, 'wf': True,
+            'name': x['name'], 'input': x['input']}
 
 
 def real_state(snap):
@@ -313,13 +398,41 @@ def real_state(snap):
         'prepared': bool(wi), 'count': (wi or {}).get('count', 0), 'capacity': (wi or {}).get('capacity'),
         'concurrency': rt.get('concurrency'),
         'items': [[a['index'], a['state'], a['accepted']] for a in t1_actions(snap)],
-        'unhandled': len([j for j in snap['jobs'] if j[0] == '_scheduled_on_action_complete' and j[1] == 'th_on_a_c-%s' % t['id']]),
+        # pending completion jobs of the task + (sub-workflow items) completion messages of children still on their
+        # way to the job: `_send_result` registered / rpc on_action_complete(wf_action) not yet delivered
+        'unhandled': len([j for j in snap['jobs'] if j[0] == '_scheduled_on_action_complete'
+                          and j[1] == 'th_on_a_c-%s' % t['id']]) + snap.get('inflight', 0),
         'tstate': t['state'],
         'retryNo': (rt.get('retry_task_policy') or {}).get('retry_no', 0),
     }
 
 
 MODEL_KEYS = ('prepared', 'count', 'capacity', 'concurrency', 'items', 'unhandled', 'tstate', 'retryNo')
+
+
+class WfOracle(object):
+    """outcome table for sub-workflow items: the k-th run of the action of task s1 in a child of item index i is
+    `t1:<i>:<k>` (k counts over all children of that index and over inner reruns); every other action runs"""
+
+    def __init__(self, table):
+        self.table = dict(table or {})
+        self.seen = {}
+
+    def __call__(self, world, d):
+        from mistral.db.v2 import api as db_api
+        with db_api.transaction(read_only=True):
+            a = db_api.load_action_execution(d['action_ex_id'])
+            if a is None or not a.task_execution:
+                return ('run', None)
+            t = a.task_execution
+            wf_ex = t.workflow_execution
+            if not wf_ex.task_execution_id or t.name != SUB_LAST:
+                return ('run', None)
+            idx = (wf_ex.runtime_context or {}).get('index', 0)
+        k = self.seen.get(idx, 0)
+        self.seen[idx] = k + 1
+        v = self.table.get('%s:%d:%d' % (TASK, idx, k)) or ['run']
+        return (v[0], v[1] if len(v) > 1 else None)
 
 
 class Runner(object):
@@ -336,7 +449,10 @@ class Runner(object):
         self.er = er
         self.w = EngineWorld(seed=case['seed'])
         self.rng = random.Random(case['seed'])
-        self.oracle = er.Oracle(case['table'])
+        self.oracle = WfOracle(case['table']) if is_wf(case) else er.Oracle(case['table'])
+        self.inner = dict(case['inner']) if case.get('inner') else None       # inner rerun still to do
+        self.inner_done = []                                                   # [(event index, when)]
+        self.stop_child = dict(case['stop_child']) if case.get('stop_child') else None
         self.choices = list(choices or [])
         self.script = list(script) if script is not None else None   # model ops to follow (policy 'script')
         self.script0 = list(script) if script is not None else None
@@ -349,10 +465,59 @@ class Runner(object):
         self.result_calls = []       # real get_task_execution_result at the end
 
     # -- classification of deliverable items
-    def _is_result(self, it, t1ord_actions):
+    def _result_pos(self, it, snap):
+        """the position of the item whose result this delivery decides, None for any other delivery.
+        action items: the rpc on_action_complete of the action execution; sub-workflow items: the run of the action
+        of the child's last task s1 (everything after it inside the child is delivered eagerly in the scripted modes)"""
         k, x = it
-        return (k == 'p' and x.kind == 'rpc' and x.data['method'] == 'on_action_complete'
-                and self.w.id_ord.get(x.data['kwargs']['action_ex_id']) in t1ord_actions)
+        if k != 'p':
+            return None
+        items = t1_actions(snap)
+        ords = [a['ord'] for a in items]
+        if is_wf(self.case):
+            if x.kind != 'action':
+                return None
+            ao = self.w.id_ord.get(x.data['action_ex_id'])
+            a = [a for a in snap['actions'] if a['ord'] == ao]
+            t = [t for t in snap['tasks'] if a and t['ord'] == a[0]['task']]
+            if not t or t[0]['name'] != SUB_LAST or t[0]['wf'] not in ords:
+                return None
+            return ords.index(t[0]['wf'])
+        if x.kind == 'rpc' and x.data['method'] == 'on_action_complete' and not x.data['kwargs'].get('wf_action'):
+            o = self.w.id_ord.get(x.data['kwargs']['action_ex_id'])
+            if o in ords:
+                return ords.index(o)
+        return None
+
+    def _snap(self):
+        """committed rows + the number of child-completion messages in flight (registered post-commit `_send_result`
+        operations and undelivered rpc on_action_complete(wf_action=True)): only t1 has sub-workflows"""
+        snap = self.w.snapshot()
+        n = 0
+        for p in self.w.pending:
+            if p.kind == 'rpc' and p.data['method'] == 'on_action_complete' and p.data['kwargs'].get('wf_action'):
+                n += 1
+            elif p.kind == 'posttx':
+                n += len([o for o in p.data if getattr(o[0], '__name__', '') == '_send_result'])
+        snap['inflight'] = n
+        return snap
+
+    def _with_completions(self, op, before, after):
+        """sub-workflow items: the transaction in which a child goes from non-final to final IS the model operation
+        `result pos outcome` (state + accepted; the completion message is registered by the same transaction)"""
+        if not is_wf(self.case):
+            return op
+        b = {a['ord']: a for a in t1_actions(before)}
+        comp = []
+        for pos, a in enumerate(t1_actions(after)):
+            pa = b.get(a['ord'])
+            if a['state'] in FINAL and (pa is None or pa['state'] not in FINAL):
+                comp.append([pos, a['state']])
+        if not comp:
+            return op
+        if op is not None or len(comp) > 1:
+            return {'op': 'unexpected-child-completion', 'with': op, 'completions': comp}
+        return {'op': 'result', 'pos': comp[0][0], 'outcome': comp[0][1]}
 
     def _is_handled_job(self, it):
         k, x = it
@@ -366,6 +531,8 @@ class Runner(object):
         if k == 'job':
             fn = x.func_name.split('.')[-1]
             if fn == '_scheduled_on_action_complete':
+                if t and x.key != 'th_on_a_c-%s' % t['id']:
+                    return {'op': 'unexpected-completion-job-of-another-task'}
                 return {'op': 'handled'}
             if fn == '_continue_task' and t and x.func_args.get('task_ex_id') == t['id']:
                 return {'op': 'continue'}
@@ -378,7 +545,7 @@ class Runner(object):
                 if kw['rerun']:
                     return {'op': 'rerun', 'reset': bool(kw['reset'])}
                 return {'op': 'unexpected-start_task'}
-            if m == 'on_action_complete':
+            if m == 'on_action_complete' and not kw.get('wf_action') and not is_wf(self.case):
                 ords = [a['ord'] for a in t1_actions(snap_before)]
                 o = self.w.id_ord.get(kw['action_ex_id'])
                 if o in ords:
@@ -395,40 +562,98 @@ class Runner(object):
         snap = self.events[-1].snap
         t = t1_row(snap)
         self.w.op('rerun_workflow', t['id'], reset=r['reset'])
-        self.events.append(Ev(['op', 'rerun', r['reset']], None, self.w.snapshot(), 'rerun-request'))
+        self.events.append(Ev(['op', 'rerun', r['reset']], None, self._snap(), 'rerun-request'))
+
+    def _do_inner(self, pos, when):
+        """INNER rerun: re-run the failed task inside the pos-th child of t1 (the API call on the child's task);
+        `Workflow._recursive_rerun` puts the child, the parent workflow and t1 back to RUNNING.  Not a model
+        operation: the model comparison of the run ends here"""
+        snap = self.events[-1].snap
+        items = t1_actions(snap)
+        if pos >= len(items) or not items[pos].get('wf'):
+            return False
+        ts = [x for x in snap['tasks'] if x['wf'] == items[pos]['ord'] and x['state'] == 'ERROR']
+        if not ts:
+            return False
+        self.w.op('rerun_workflow', ts[0]['id'])
+        self.w.forget_broken()
+        self.inner_done.append((len(self.events), when))
+        self.events.append(Ev(['op', 'inner-rerun', pos, when], None, self._snap(), 'inner-rerun'))
+        return True
+
+    def _do_stop(self, pos):
+        """`stop_workflow(child, CANCELLED)` from outside: the child ends CANCELLED + accepted in this transaction =
+        the model operation `result pos CANCELLED`"""
+        snap = self.events[-1].snap
+        items = t1_actions(snap)
+        if pos >= len(items) or not items[pos].get('wf') or items[pos]['state'] in FINAL:
+            return False
+        self.w.op('stop_workflow', items[pos]['id'], 'CANCELLED', 'stopped by harness')
+        after = self._snap()
+        self.events.append(Ev(['op', 'stop-child', pos], self._with_completions(None, snap, after), after, 'stop-child'))
+        return True
+
+    def _failed_children(self, snap):
+        """positions of the children of t1 that count as failed items now (ERROR and accepted)"""
+        return [p for p, a in enumerate(t1_actions(snap)) if a.get('wf') and a['state'] == 'ERROR' and a['accepted']]
 
     def run(self):
         w, case = self.w, self.case
         w.create_workflows(render_yaml(case))
         w.start_workflow('wf', wf_input(case))
-        self.events.append(Ev(['start'], None, w.snapshot()))
+        self.events.append(Ev(['start'], None, self._snap()))
         step = 0
         ci = 0
         while step < self.max_steps:
             snap = self.events[-1].snap
             t = t1_row(snap)
             if self.reruns and self.reruns[0]['when'] == 'asap' and t and t['state'] == 'ERROR' \
-                    and snap['wfs'][0]['state'] == 'ERROR':
+                    and snap['wfs'][0]['state'] == 'ERROR' and not (self.inner and self._failed_children(snap)):
                 self._do_rerun(self.reruns.pop(0))
                 continue
+            if self.script is None and self.stop_child and step >= self.stop_child['after'] and t:
+                cand = [p for p, a in enumerate(t1_actions(snap))
+                        if a.get('wf') and a['index'] == self.stop_child['index']]
+                if cand:
+                    # the newest child of that index; one that is final already is not stopped
+                    self._do_stop(cand[-1])
+                    self.stop_child = None
+                    continue
+            if self.script is None and self.inner and self.inner['when'] == 'sibling-running' and t \
+                    and t['state'] == 'RUNNING':
+                failed = self._failed_children(snap)
+                if failed and any(a['state'] == 'RUNNING' for a in t1_actions(snap)) \
+                        and self.rng.random() < self.inner.get('p', 1.0):
+                    if self._do_inner(failed[0], 'sibling-running'):
+                        self.inner = None
+                        continue
             en = self._enabled()
             if not en:
                 und = [j for j in w.undue_jobs() if not j.func_name.endswith('_check_and_fix_integrity')]
                 if und:
                     nxt = min(j.execute_at for j in und)
                     w.tick(int((nxt - w.now()).total_seconds()))
-                    self.events.append(Ev(['tick'], None, w.snapshot()))
+                    self.events.append(Ev(['tick'], None, self._snap()))
                     continue
+                if self.script is None and self.inner and t and t['state'] == 'ERROR' and self._failed_children(snap):
+                    # everything is quiet, the parent task completed (ERROR): re-run a failed child from the inside
+                    if self._do_inner(self._failed_children(snap)[0], 'after-parent'):
+                        self.inner = None
+                        continue
                 if self.reruns and t and t['state'] == 'ERROR' and snap['wfs'][0]['state'] == 'ERROR':
                     self._do_rerun(self.reruns.pop(0))
                     continue
                 if self.script and self.script[0]['op'] == 'rerun' and t and t['state'] == 'ERROR':
                     self._do_rerun({'reset': self.script.pop(0)['reset']})
                     continue
+                if self.script and self.script[0]['op'] == 'inner-rerun':
+                    o = self.script.pop(0)
+                    if self._do_inner(o['pos'], 'script'):
+                        continue
+                    self.script_failed = o
                 break
             if self.script is not None:
-                ords = [a['ord'] for a in t1_actions(snap)]
-                eager = [e for e in en if not self._is_result(e, ords) and not self._is_handled_job(e)
+                eager = [e for e in en if self._result_pos(e, snap) is None and not self._is_handled_job(e)
                          and not (e[0] == 'job' and e[1].func_name.endswith('._continue_task'))]
                 if eager:
                     it = eager[0]
@@ -444,14 +669,20 @@ class Runner(object):
                         self.script.pop(0)
                         self._do_rerun({'reset': o['reset']})
                         continue
+                    if o['op'] in ('inner-rerun', 'stop'):
+                        self.script.pop(0)
+                        if not (self._do_inner(o['pos'], 'script') if o['op'] == 'inner-rerun'
+                                else self._do_stop(o['pos'])):
+                            self.script_failed = o
+                            break
+                        continue
                     it = None
                     for e in en:
                         if o['op'] == 'handled' and self._is_handled_job(e):
                             it = e
                         elif o['op'] == 'continue' and e[0] == 'job' and e[1].func_name.endswith('._continue_task'):
                             it = e
-                        elif o['op'] == 'result' and self._is_result(e, ords) and \
-                                ords.index(w.id_ord.get(e[1].data['kwargs']['action_ex_id'])) == o['pos']:
+                        elif o['op'] == 'result' and self._result_pos(e, snap) == o['pos']:
                             it = e
                         if it is not None:
                             break
@@ -460,8 +691,7 @@ class Runner(object):
                         break
                     self.script.pop(0)
             elif self.case['policy'] == 'choices':
-                ords = [a['ord'] for a in t1_actions(snap)]
-                eager = [e for e in en if not self._is_result(e, ords) and not self._is_handled_job(e)]
+                eager = [e for e in en if self._result_pos(e, snap) is None and not self._is_handled_job(e)]
                 if eager:
                     it = eager[0]
                 else:
@@ -469,8 +699,8 @@ class Runner(object):
                     hj = [e for e in en if self._is_handled_job(e)]
                     if hj:
                         opts.append(hj[0])
-                    res = [e for e in en if self._is_result(e, ords)]
-                    res.sort(key=lambda e: w.id_ord.get(e[1].data['kwargs']['action_ex_id']))
+                    res = [e for e in en if self._result_pos(e, snap) is not None]
+                    res.sort(key=lambda e: self._result_pos(e, snap))
                     opts += res
                     c = self.choices[ci] if ci < len(self.choices) else 0
                     ci += 1
@@ -482,7 +712,8 @@ class Runner(object):
             op = self._model_op(it, snap)
             w.deliver(it, oracle=self.oracle)
             step += 1
-            self.events.append(Ev(desc, op, w.snapshot()))
+            after = self._snap()
+            self.events.append(Ev(desc, self._with_completions(op, snap, after), after))
         else:
             self.exhausted = True
         self.final = self.events[-1].snap
@@ -525,7 +756,15 @@ def compare(ctx, case, run, drv, stream='withitems'):
     sched = {'choices': run.choices or None, 'script': run.script0}
     """step the model along the mapped operations and diff after every event; returns True if all
     agreed"""
-    ops = [e.op for e in run.events if e.op is not None]
+    # an INNER rerun (a failed child re-run from the inside) is not an operation of the model: the comparison covers
+    # the events before it; the statement monitors keep reading the whole run
+    cut = len(run.events)
+    for ei, e in enumerate(run.events):
+        if e.note == 'inner-rerun':
+            cut = ei
+            ctx.count(stream, 'inner-rerun:model-comparison-stops')
+            break
+    ops = [e.op for e in run.events[:cut] if e.op is not None]
     bad_ops = [o for o in ops if o['op'].startswith('unexpected')]
     if bad_ops:
         ctx.disagree(stream, {'case': case, 'what': 'event not mapped'}, None, bad_ops)
@@ -540,7 +779,7 @@ def compare(ctx, case, run, drv, stream='withitems'):
     k = 0
     ok = True
     rerun_pending = False
-    for ei, e in enumerate(run.events):
+    for ei, e in enumerate(run.events[:cut]):
         if e.op is not None:
             cur = states[k]
             k += 1
@@ -569,7 +808,7 @@ def compare(ctx, case, run, drv, stream='withitems'):
             ok = False
             break
     # ---- the result list
-    if ok and run.real_result is not None and states:
+    if ok and run.real_result is not None and states and cut == len(run.events):
         last = states[-1] if ops else None
         if last is not None:
             acts = t1_actions(run.final)
@@ -582,6 +821,8 @@ def compare(ctx, case, run, drv, stream='withitems'):
 
 def result_value(a):
     out = a['output']
+    if a.get('wf'):
+        return out           # `_extract_execution_result`: the whole output of a child workflow
     if out:
         return out.get('result')
     return None
@@ -658,6 +899,10 @@ def monitors(case, run):
             return KR
         if 'KL' in triggers:
             return KL
+        if 'KJ' in triggers:
+            return KJ
+        if 'KI' in triggers:
+            return KI
         return default
 
     # which executions of the task are new in which snapshot
@@ -700,9 +945,19 @@ def monitors(case, run):
             n2 = True
             hit('partial_portion_started', item, {'kind': 'input-failure-after-part-of-portion-started'})
 
+    # N4 (sub-workflow items; Lean invariant Props.C09.running_child_not_accepted, over histories with inner reruns):
+    #    a child workflow execution of the task that is not final has accepted == False
+    for i, e in enumerate(evs):
+        bad = [[a['index'], a.get('raw_state')] for a in t1_actions(e.snap)
+               if a.get('wf') and a['state'] not in FINAL and a['accepted']]
+        if bad:
+            hit('running_child_accepted', {'event': i, 'desc': e.desc, 'children': bad},
+                {'kind': 'running-child-accepted'})
+            break
+
     # M1 never more than `concurrency` RUNNING children at once
     if limit:
-        plain = known = False
+        plain = known = known_i = False
         for i, e in enumerate(evs):
             rn = {a['ord'] for a in t1_actions(e.snap) if a['state'] == 'RUNNING'}
             if len(rn) <= limit:
@@ -716,7 +971,15 @@ def monitors(case, run):
                 if li < i and any(x.op and x.op['op'] == 'rerun' for x in evs[li + 1:i + 1]):
                     orphans |= lrn
             item = {'event': i, 'desc': e.desc, 'running': len(rn), 'limit': limit, 'orphans': len(orphans)}
-            if orphans and len(rn) - limit <= len(orphans):
+            # sub-workflow items: children put back to RUNNING by an inner rerun (they took no unit of capacity)
+            inner = len([x for x in evs[:i + 1] if x.note == 'inner-rerun'])
+            if inner and len(rn) - limit <= inner and not orphans:
+                triggers.add('KI')
+                item['inner_reruns'] = inner
+                if not known_i:
+                    known_i = True
+                    hit('running_gt_concurrency', item, KI)
+            elif orphans and len(rn) - limit <= len(orphans):
                 triggers.add('KR')
                 if not known:
                     known = True
@@ -751,9 +1014,20 @@ def monitors(case, run):
                                                            'max_failed': max_failed},
                             cause({'kind': 'rerun-no-reset-reexecutes-succeeded-item-before-last-failed'}))
                 elif a['index'] in live:
-                    if r['kind'] == 'first':
+                    tr = t1_row(evs[i].snap)
+                    if any(x.note == 'inner-rerun' for x in evs[:i]) and \
+                            ((tr and tr['state'] == 'DELAYED') or 'KJ' in triggers):
+                        triggers.add('KJ')
+                        hit('index_started_twice', {'event': i, 'index': a['index'], 'round': r['kind'],
+                                                    'task_state': tr and tr['state']}, KJ)
+                    elif r['kind'] == 'first':
                         hit('index_started_twice', {'event': i, 'index': a['index'], 'round': r['kind']},
                             {'kind': 'index-started-twice-first-run'})
+                    elif 'KI' in triggers:
+                        # consequence of the excess after an inner rerun: two completions pending at once under a
+                        # limit, the first completes the task (retry: DELAYED), the second is handled while the task
+                        # is DELAYED and schedules the next portion, then the retry continuation starts it again
+                        hit('index_started_twice', {'event': i, 'index': a['index'], 'round': r['kind']}, KI)
                     else:
                         triggers.add('K2')
                         hit('index_started_twice', {'event': i, 'index': a['index'], 'round': r['kind']}, K2)
@@ -849,7 +1123,8 @@ def monitors(case, run):
                     hit('result_order', {'want': want, 'got': got, 'published': pub},
                         cause({'kind': 'result-not-in-item-order'}))
                 if case.get('downstream') and t['state'] == 'SUCCESS':
-                    t2 = [a for a in run.final['actions'] if a['name'] == 'std.echo' and a['task'] != t['ord']]
+                    t2rows = [x['ord'] for x in run.final['tasks'] if x['name'] == 't2' and x['wf'] == t['wf']]
+                    t2 = [a for a in run.final['actions'] if a['name'] == 'std.echo' and a['task'] in t2rows]
                     if not t2 or (t2[0]['input'] or {}).get('output') != want:
                         hit('result_order', {'want': want, 'downstream': t2 and t2[0]['input']},
                             cause({'kind': 'result-not-in-item-order'}))
@@ -883,6 +1158,14 @@ def features(case, run):
     order = [e.op['pos'] for e in run.events if e.op and e.op['op'] == 'result']
     if case['n'] >= 2 and order != sorted(order):
         f.add('out-of-order')
+    if is_wf(case):
+        f.add('wf-items')
+        for (_, when) in run.inner_done:
+            f.add('inner-rerun:' + when)
+        if any(e.note == 'stop-child' for e in run.events):
+            f.add('child-stopped')
+        if any(a['state'] == 'CANCELLED' for a in t1_actions(run.final)):
+            f.add('item-cancelled')
     prev = None
     for e in run.events:
         if e.op:
@@ -908,6 +1191,7 @@ def run_one(ctx, case, drv, choices=None, stream='withitems', script=None):
     ctx.count(stream, 'conc:%s' % case['conc_form'])
     ctx.count(stream, 'final:%s' % (t['state'] if t else None))
     ctx.count(stream, 'eval:' + eval_kind(case))
+    ctx.count(stream, 'items:' + ('workflow' if is_wf(case) else 'action'))
     if (case.get('eval') or {}).get('input'):
         ctx.count(stream, 'evalform:' + case['eval']['input'])
     for x in f:
@@ -943,7 +1227,12 @@ def run_corpus(ctx, drv):
     for f in sorted(glob.glob(os.path.join(core.VERIF, 'corpus', 'C07', '*.json'))):
         c = json.load(open(f))
         ctx.count('withitems', 'corpus')
-        run_one(ctx, c['case'], drv, c.get('choices'), script=c.get('script'))
+        run, ok = run_one(ctx, c['case'], drv, c.get('choices'), script=c.get('script'))
+        if c.get('must_follow') and (run.script_failed is not None or run.script):
+            # a fixed scenario that every run has to exercise could not be followed step by step
+            ctx.broken_tie('corpus', os.path.basename(f),
+                           'the scripted scenario could not be followed on the real engine (stuck at %s, left %s)'
+                           % (run.script_failed, run.script))
 
 
 # ----------------------------------------------------------------------------- exhaustive tier
@@ -976,7 +1265,7 @@ def exhaustive_cases(max_n):
     return res
 
 
-def exh_case(n, conc, outs, seed=1, rerun=None, bad=None):
+def exh_case(n, conc, outs, seed=1, rerun=None, bad=None, wf=False):
     table = {}
     for i, o in enumerate(outs):
         table['%s:%d:0' % (TASK, i)] = {'S': ['value', 'v%d.0' % i], 'E': ['error', 'e%d.0' % i], 'C': ['cancel']}[o]
@@ -985,6 +1274,10 @@ def exh_case(n, conc, outs, seed=1, rerun=None, bad=None):
             'reruns': [rerun] if rerun else [], 'seed': seed}
     if bad:
         case['eval'] = {'items': 'list', 'input': 'div-inline', 'bad': sorted(bad)}
+    if wf:
+        # sub-workflow items: the decision points are the runs of the children's last action and the completion jobs
+        case['item_kind'] = 'workflow'
+        case['sub_tasks'] = 1
     return case
 
 
@@ -1000,12 +1293,13 @@ def exhaustive_eval_cases(max_n):
 
 
 def run_exhaustive_chunk(ctx, specs, limit=None):
-    """specs: (n, conc, outcomes, rerun | None[, order limit[, failing item inputs]])"""
+    """specs: (n, conc, outcomes, rerun | None[, order limit[, failing item inputs[, sub-workflow items?]]])"""
     drv = ctx.driver()
     total = 0
     for sp in specs:
         (n, conc, outs, rr) = sp[:4]
-        case = exh_case(n, conc, outs, rerun=rr, bad=(sp[5] if len(sp) > 5 else None))
+        case = exh_case(n, conc, outs, rerun=rr, bad=(sp[5] if len(sp) > 5 else None),
+                        wf=bool(sp[6]) if len(sp) > 6 else False)
         total += all_orders(ctx, case, drv, limit=(sp[4] if len(sp) > 4 and sp[4] else limit))
     ctx.count('withitems-exh', 'runs', total)
 
